@@ -22,7 +22,8 @@ RULE = c01.RULE.replace("chart field edits by attribute and key, extradata", "SS
 ASSUMPTIONS = c01.ASSUMPTIONS
 MONITORS = ["model_equality", "roundtrip", "restringify", "loads_detects_ssc", "tokenizer_structure", "chart_from_str", "eq_when_notes_last"]
 REQUIRED = ["empty_notes", "interned_notes", "same_object_as_notes", "notes2", "notes_not_last", "chart_multi_value",
-            "key_only_in_chart", "value_equal_to_notes", "notes_backslash_without_other_meta", "corpus_start"]
+            "key_only_in_chart", "value_equal_to_notes", "notes_backslash_without_other_meta", "corpus_start",
+            "notes_moved_to_other_key_after_str"]
 
 
 def anchors():
@@ -68,6 +69,12 @@ def features(ctx, m, s, case):
             ctx.feat("notes_backslash_without_other_meta")
     if case["start"] not in ("blank", "empty"):
         ctx.feat("corpus_start")
+    seen_str = False
+    for op in case["ops"]:
+        if op[0] == "str":
+            seen_str = True
+        elif op[0] == "cc_swapnotes" and seen_str:
+            ctx.feat("notes_moved_to_other_key_after_str")
 
 
 def check(ctx, case):
@@ -85,6 +92,8 @@ def check(ctx, case):
         ctx.skip("a chart lost its note data (outside the quantifier)")
         return
     text = str(s)
+    if E.real_state(s, KIND) != E.model_state(m, KIND):
+        ctx.violation("serialize:modified-the-simfile", {"after_str": repr(E.real_state(s, KIND))[:600], "model": repr(E.model_state(m, KIND))[:600]})
     features(ctx, m, s, case)
     ctx.begin(case, nontrivial=bool(m.charts) or any(v and any(ch in v for ch in ":;\\/\n\r") for _, v in m.items()),
               sample={"start": case["start"], "n_ops": len(case["ops"]), "ops": case["ops"][:5], "pool": case["pool"], "text": text[:300]})
